@@ -5,12 +5,13 @@ from bounded import edits as E
 
 SCRIPT_OPS = [("set", "a", "2"), ("set", "z", '"s"'), ("set", "m.x", "5"), ("set", "m.z", "7"), ("set", "n.p", "{ k = 1; }"),
               ("rm", "a", None), ("rm", "m.x", None), ("rm", "m.y", None), ("rm", "z", None), ("rm", "m", None), ("set", "@v", "9"),
-              ("rm", "@v", None), ("set", "a.b", "1")]
+              ("rm", "@v", None), ("set", "a.b", "1"), ("rm", "b.enable", None), ("set", "c.enable", "true"), ("rm", "@w.v", None)]
 
 
 def scripts(tier):
     docs = [(d, t) for d, t in E.documents(tier) if d.split("/")[1] in ("flat", "nested", "attrpath", "comments", "attrpath-deep")
             and d.split("/")[0] in ("bare", "lambda-let", "let2", "with", "lambda-call")]
+    docs += [(d, t) for d, t in E.documents(tier) if d in ("bare/twins", "let-twins/twins", "let-twins/flat", "bare/twins-inline")]
     n = 2 if tier == "quick" else 3
     for d, t in docs:
         for combo in itertools.product(SCRIPT_OPS, repeat=n):
